@@ -277,6 +277,38 @@ Definition observe (s : pstate) : pobs :=
   | None => PObs None None (ps_ret s) (ps_dead s)
   end.
 
+(* ---------- Client.SendProtobuf and the caller's reply variable ------------------------- *)
+
+(* SendProtobuf(dst, msg, ret) sends the request, and on success decodes the reply bytes
+   into the caller's [ret]; protobuf.Decode RESETS the target before it fills in the
+   fields found on the wire, so after a successful call [ret] is the decoding of this
+   call's reply from scratch -- also when the reply is encoded to zero bytes (a handler
+   without reply, [HAck]): then it is the zero reply.  On an error [ret] is not touched.
+   [skip_empty = true] is the variant that does not decode a reply of zero bytes (kept
+   for the refutation).  [ret]: what the variable holds (None: never written = zero). *)
+Definition zero_reply : reply := ROk 0 zero_msg.
+
+Definition wire_empty (r : reply) : bool :=
+  match r with ROk 0 m => msg_eqb m zero_msg | _ => false end.
+
+Definition ret_content (ret : option reply) : reply :=
+  match ret with Some r => r | None => zero_reply end.
+
+(* (the variable afterwards, what the caller sees: the error, or the content of the variable) *)
+Definition sendpb (skip_empty : bool) (ret : option reply) (server : reply) : option reply * reply :=
+  match server with
+  | RErr c t => (ret, RErr c t)
+  | ROk _ _ => if skip_empty && wire_empty server then (ret, ret_content ret)
+               else (Some server, server)
+  end.
+
+(* a sequence of calls that reuse one variable *)
+Fixpoint sendpb_seq (skip_empty : bool) (ret : option reply) (servers : list reply) : list reply :=
+  match servers with
+  | [] => []
+  | r :: rest => let (ret', seen) := sendpb skip_empty ret r in seen :: sendpb_seq skip_empty ret' rest
+  end.
+
 (* ---------- callInterfaceFunc for both kinds of handler ---------------------------------- *)
 
 (* outcome of callInterfaceFunc; CCrash = the panic leaves the function (the goroutine,
